@@ -14,19 +14,21 @@ import (
 
 func main() {
 	var (
-		prop    = flag.String("prop", "C01", "property stream")
-		count   = flag.Int("n", 100, "number of histories")
-		seed    = flag.Uint64("seed", 1, "seed")
-		coqOut  = flag.String("coq", "", "Gallina cases file")
-		coqMax  = flag.Int("coqmax", 100, "at most this many histories go to the Gallina file")
-		jsonOut = flag.String("json", "", "report file")
-		ops     = flag.Int("ops", 40, "operations per history")
-		only    = flag.Int("only", -1, "keep only this history index (debugging)")
-		claim   = flag.String("claim", "", "property whose oracle findings are violations (default: none)")
-		include = flag.String("include", "", "comma separated oracle families that also count as violations of the claimed property")
-		mode    = flag.String("mode", "random", "random | memokeys (exhaustive key sequences through a BindMemoized)")
-		length  = flag.Int("len", 5, "memokeys: key sequences up to this length")
-		par     = flag.Int("par", 0, "if > 0: replay every history on a graph driven by ParallelStabilize with this parallelism, compare with the serial run, and record the PARALLEL run for the model")
+		prop     = flag.String("prop", "C01", "property stream")
+		count    = flag.Int("n", 100, "number of histories")
+		seed     = flag.Uint64("seed", 1, "seed")
+		coqOut   = flag.String("coq", "", "Gallina cases file")
+		coqMax   = flag.Int("coqmax", 100, "at most this many histories go to the Gallina file")
+		jsonOut  = flag.String("json", "", "report file")
+		ops      = flag.Int("ops", 40, "operations per history")
+		only     = flag.Int("only", -1, "keep only this history index (debugging)")
+		claim    = flag.String("claim", "", "property whose oracle findings are violations (default: none)")
+		include  = flag.String("include", "", "comma separated oracle families that also count as violations of the claimed property")
+		mode     = flag.String("mode", "random", "random | memokeys (exhaustive key sequences through a BindMemoized)")
+		dagNodes = flag.Int("dagnodes", 3, "dags: number of MapN nodes")
+		dagMaxH  = flag.Int("dagmaxh", 256, "dags: the graph's MaxHeight")
+		length   = flag.Int("len", 5, "memokeys: key sequences up to this length")
+		par      = flag.Int("par", 0, "if > 0: replay every history on a graph driven by ParallelStabilize with this parallelism, compare with the serial run, and record the PARALLEL run for the model")
 	)
 	flag.Parse()
 	rep := hx.NewReport("incrtrace/"+*prop, *seed)
@@ -41,6 +43,12 @@ func main() {
 		memo = eng.MemoKeyHistories(*length, rng)
 		*count = len(memo)
 		prof.Name = "memokeys"
+	}
+	if *mode == "dags" {
+		memo = eng.DagHistories(*dagNodes, *length)
+		*count = len(memo)
+		prof.Name = "dags"
+		prof.MaxHeight = *dagMaxH
 	}
 	for i := 0; i < *count; i++ {
 		var e *eng.Exec
@@ -100,7 +108,17 @@ func main() {
 			rep.Count(o.K)
 		}
 		rep.Sizes[fmt.Sprintf("nodes<=%d", (e.Next/10+1)*10)]++
-		if eng.NonTrivial(e) {
+		if *mode == "dags" {
+			adds := 0
+			for j, o := range e.Ops {
+				if o.K == "AddInput" && e.Samples[j].Class == "XOk" {
+					adds++
+				}
+			}
+			if adds >= 2 {
+				distinct.Add(strings.Join(strs, ";"))
+			}
+		} else if eng.NonTrivial(e) {
 			distinct.Add(strings.Join(strs, ";"))
 		}
 		for _, s := range e.Samples {
@@ -135,7 +153,12 @@ func main() {
 	rep.CoqCases = len(cases)
 	rep.Rule = fmt.Sprintf("%d random histories of %d well-formed operations (profile %s); non-trivial = some pass ran >= 2 node "+
 		"functions after a write; distinct by operation sequence", *count, *ops, prof.Name)
-	if memo != nil {
+	if *mode == "dags" {
+		rep.Exhaustive = true
+		rep.Rule = fmt.Sprintf("every sequence of <= %d edge insertions/removals (MapN.AddInput/RemoveInput) between %d observed MapN nodes and a "+
+			"leaf var, MaxHeight %d, cycles included (they must be rejected; a history stops at the first rejection): %d histories",
+			*length, *dagNodes, *dagMaxH, len(memo))
+	} else if memo != nil {
 		rep.Exhaustive = true
 		rep.Rule = fmt.Sprintf("every key sequence of length <= %d over 4 keys through one BindMemoized with 4 right-hand-side templates "+
 			"(constant, reads an outer node, nested bind, map2 of the key and an outer node), each sequence alone, with an outer-input write "+
@@ -150,7 +173,7 @@ func main() {
 		// the model's own invariants along the same histories: the quiescent well-formedness after
 		// every operation (W) and local consistency + agreement with the from-scratch evaluator
 		// after every successful pass without mid-pass writes (C)
-		if prof.Name != "reject" && prof.Name != "limit" { // after a structural rejection the invariants are known not to hold (recorded finding)
+		if prof.Name != "reject" && prof.Name != "limit" && prof.Name != "dags" { // after a structural rejection the invariants are known not to hold (recorded finding)
 			b.WriteString("Definition W := Eval vm_compute in omap (fun c : case => wf_trace (init (fst (fst c))) (map fst (snd c)) 0) cases.\nPrint W.\n")
 			b.WriteString("Definition C := Eval vm_compute in omap (fun c : case => c01_trace (init (fst (fst c))) (map fst (snd c)) 0) cases.\nPrint C.\n")
 		}
